@@ -11,6 +11,7 @@ RULE = ("random nested programs over {with no_grad, with retain_grads} to depth 
         "model; backward inside/outside the contexts checks leaf-keeps / intermediate-releases / retained-keeps; distinct key = nesting "
         "structure (kinds, context source, raise flags); non-trivial = depth >= 2 or a pre-constructed / re-entered context or an exception exit")
 RULE += (' Added after the seeded rounds: identity-shaped ops (x**0, x**1, x*1, no-op reshapes), complex / bool dtypes, a rejected setter leaves the flag off, `requires_grad = False` always accepted, leaves that once were results of untracked ops, intermediates receiving an all-zero gradient; context objects that cannot be re-entered are replaced and counted.')
+RULE += (" Round 6 / reach monitor: layer (Module) forms of every layer / loss on requiring, constant, frozen inputs in both call forms; calls that are legally refused (seed of another shape, non-tensor seed, incompatible shapes, empty geometries) followed by the mode probes; detach() of an intermediate result and its re-use as a leaf.")
 ASSUMPTIONS = ["for retain_grads only the two unambiguous combinations are asserted: built and differentiated inside => interior gradients kept; both "
                "outside with no retain_grad() => released",
                "requesting requires_grad=True for an integer tensor while gradients are disabled may either raise or yield a tensor that does not require grad"]
